@@ -207,8 +207,10 @@ func (st *lpmState) exec(op lpmOp) []Ev {
 }
 
 func init() {
-	drivers["lpm"] = func(t *testing.T, scripts []Script, log *Log) {
-		for _, sc := range scripts {
+	drivers["lpm"] = func(t *testing.T, scripts []Script, from int, log *Log) {
+		for i := from; i < len(scripts); i++ {
+			sc := scripts[i]
+			bad := false
 			st := &lpmState{
 				tries: map[int]*lpm.Trie[int]{},
 				txns:  map[int]*lpm.Txn[int]{},
@@ -227,10 +229,14 @@ func init() {
 				}
 				if panicked {
 					log.Emit(Ev{"op": "panic", "during": op.Op, "msg": msg})
+					bad = true
 					break
 				}
 			}
 			log.End(sc.ID)
+			if bad {
+				ExitAfterPanic(log, i+1)
+			}
 		}
 	}
 }
